@@ -76,6 +76,7 @@ def run(ctx):
             ctx.guard("C10", "twins", lambda: features.twins(ctx, prog, scope='internals::compare::|position_array::', floor=8))
         ctx.guard("C10", "traits", lambda: vis.trait_census(ctx, prog, scope='block_hash::(Index|Numeric)Windows'))
         ctx.guard("C10", "const values", lambda: data.const_census(ctx, prog, data.CONST_SCOPES["C10"], floor=1))
+        ctx.guard("C10", "panic conditions", lambda: beliefs.live_census(ctx, prog, beliefs.SCOPES["C10"][0]))
         ctx.guard("C10", "initialisers", lambda: typestate.initialisers_complete(ctx, prog))
         ctx.guard("C10", "summaries", lambda: summary.check(ctx, prog, 'block_hash::(Index|Numeric)Windows|block_hash_[12]_(numeric_|index_)?windows|FuzzyHashCompareTarget::(is_comparison_candidate|compare)\\w*$', floor=4))
         ctx.guard("C10", "path summaries", lambda: summary.check_paths(ctx, prog, 'block_hash::(Index|Numeric)Windows|block_hash_[12]_(numeric_|index_)?windows|FuzzyHashCompareTarget::(is_comparison_candidate|compare)\\w*$', floor=16))
